@@ -48,7 +48,7 @@ def Series(params: SeriesParams) -> h.Module:
 
     # Copy the unit-cell ports, Signal and Bundle valued.
     # All but the two series ports are wired in parallel.
-    unit_conns = {p.name: m.add(_copy_port(p)) for p in io(params.unit).values()}
+    unit_conns = {p.name: m.add(_copy_port(p)) for p in _unit_io(params.unit).values()}
 
     # Sort out the two series ports
     series_conns = _seriesconns(m, params.conns)
@@ -130,13 +130,25 @@ def Wrapper(m: h.Instantiable) -> h.Module:
 
     # Copy the inner-cell ports
     # Note this also serves as the connections-dict to the inner instance
-    wrapper_io = {p.name: wrapper.add(_copy_port(p)) for p in io(m).values()}
+    wrapper_io = {p.name: wrapper.add(_copy_port(p)) for p in _unit_io(m).values()}
 
     # Create the inner instance
     wrapper.add(h.Instance(name=_fresh_name(wrapper, "inner"), of=m)(**wrapper_io))
 
     # And return the wrapper
     return wrapper
+
+
+def _unit_io(m: h.Instantiable) -> dict:
+    """The ports - Signal and Bundle valued - through which new parents instantiate `m`.
+    For a Module which has been elaborated before, these are its original (bundle-level) ports,
+    rather than the scalar ports its Bundles were flattened into."""
+    from .instantiable import io
+
+    pre = getattr(m, "_pre_flattening_io", None)
+    if pre is not None:
+        return dict(pre)
+    return io(m)
 
 
 def _fresh_name(m: h.Module, name: str) -> str:
